@@ -17,9 +17,9 @@ REPO = os.environ.get("VERIF_REPO", "/repo")
 if os.path.realpath(REPO) != "/repo":
     # runs against a scratch copy (mutants, seeded changes) must never overwrite the committed evidence
     EVIDENCE = os.path.join(OUT, "evidence_scratch")
-if os.environ.get("VERIF_SEED", "0") not in ("", "0"):
-    # soak runs with other seeds do not replace the evidence of the registered commands either
-    EVIDENCE = os.path.join(OUT, "evidence_soak")
+if os.environ.get("VERIF_EVIDENCE_DIR"):
+    # my own soak runs (tools/soak.sh) keep their evidence apart; the registered commands never set this
+    EVIDENCE = os.environ["VERIF_EVIDENCE_DIR"]
 
 
 def seed():
